@@ -541,7 +541,13 @@ class SymEx:
         r = self.model(st, name, declared, args, t)
         if r is not None:
             return [(st, r)]
+        rs = self.model_combinators(st, name, args, depth)
+        if rs is not None:
+            return rs
         cb = self.f.body_of_fnconst(f)
+        if cb is not None and cb.is_closure and len(args) == 2:
+            # "rust-call" ABI: the arguments arrive as one tuple, the closure body takes them spread
+            args = [args[0]] + self.spread(st, args[1], cb.arg_count - 1)
         if cb is not None and depth < self.max_depth and self.loopfree(cb) and \
                 not any(name.endswith(o) for o in self.opaque):
             self.inlined.add(cb.path)
@@ -556,6 +562,162 @@ class SymEx:
             return res
         self.opaque_calls.add(name)
         return [(st, APP(short_name(name), *[self.deep(st, a) for a in args]))]
+
+    # ---------------------------------------------------------------- closures and Option combinators
+    def spread(self, st, tup, n):
+        if tup[0] == 'ref':
+            tup = self.load(st, tup)
+        if n == 0:
+            return []
+        if tup[0] == 'struct':
+            return [sfield(tup, str(i)) if sfield(tup, str(i)) is not None else ('unk', 'tuple field') for i in range(n)]
+        return [self.field(st, tup, str(i), i) for i in range(n)]
+
+    def closure_body(self, st, clo):
+        v = clo
+        for _ in range(4):
+            if v[0] == 'ref':
+                v = self.load(st, v)
+        if v[0] == 'struct' and v[1].startswith('closure:'):
+            return self.f.body(v[1][8:]), v
+        if v[0] == 'fn':
+            return self.f.body(v[1]), None
+        return None, v
+
+    def call_closure(self, st, clo, argvals, depth):
+        """[(state, result)] of calling closure value `clo` with argument values, or None if its body is not available."""
+        cb, env = self.closure_body(st, clo)
+        if cb is None or depth >= self.max_depth or not self.loopfree(cb):
+            return None
+        self.inlined.add(cb.path)
+        sub = State.fork(st)
+        a = ([env] if cb.is_closure else []) + list(argvals)
+        outs = self.run(cb, a, st=sub, depth=depth + 1)
+        return [(o.st, o.ret) for o in outs]
+
+    SOME = staticmethod(lambda x: STRUCT('std::option::Option', ('Some', 1), [('0', x)]))
+    NONE = STRUCT('std::option::Option', ('None', 0), [])
+
+    def opt_cases(self, st, v):
+        """[(state, is_some, payload)] for an Option value (forks on a symbolic discriminant exactly like a `match`)."""
+        for _ in range(4):
+            if v[0] == 'ref':
+                v = self.load(st, v)
+        if v[0] == 'struct' and v[2] is not None:
+            return [(st, v[2][1] == 1, sfield(v, '0'))]
+        d = APP('discr', v)
+        key = repr(d)
+        if key in st.known and isinstance(st.known[key], int):
+            some = st.known[key] == 1
+            return [(st, some, self._some_payload(st, v) if some else None)]
+        s0 = st.fork()
+        s0.known[key] = 0
+        s0.pc.append(('switch', d, 0))
+        s1 = st.fork()
+        s1.known[key] = 1
+        s1.pc.append(('switch', d, 1))
+        return [(s0, False, None), (s1, True, self._some_payload(s1, v))]
+
+    def _some_payload(self, st, v):
+        return self.project(st, self.project(st, v, {'downcast': 'Some', 'vi': 1}), {'f': 0, 'n': '0'})
+
+    def bool_cases(self, st, c):
+        if c[0] == 'ref':
+            c = self.load(st, c)
+        if c[0] == 'bool':
+            return [(st, c[1])]
+        key = repr(c)
+        if key in st.known and isinstance(st.known[key], int):
+            return [(st, st.known[key] != 0)]
+        out = []
+        for bv in (True, False):
+            s2 = st.fork()
+            s2.known[key] = 1 if bv else 0
+            s2.pc.append(('cond', c, bv))
+            out.append((s2, bv))
+        return out
+
+    def model_combinators(self, st, name, args, depth):
+        """Option / bool combinators that take closures, by their documented definitions (each is a `match`)."""
+        last = name.rsplit('::', 1)[-1]
+        is_opt = 'option::Option::<T>::' in name
+        is_bool = '<impl bool>::' in name
+        if not (is_opt or is_bool):
+            return None
+        out = []
+        if is_bool and last in ('then', 'then_some'):
+            for s2, bv in self.bool_cases(st, args[0]):
+                if not bv:
+                    out.append((s2, self.NONE))
+                elif last == 'then_some':
+                    out.append((s2, self.SOME(self.deep(s2, args[1]))))
+                else:
+                    rs = self.call_closure(s2, args[1], [], depth)
+                    if rs is None:
+                        return None
+                    out.extend((s3, self.SOME(r)) for s3, r in rs)
+            return out
+        if not is_opt:
+            return None
+        if last in ('is_some', 'is_none'):
+            return [(s2, ('bool', some == (last == 'is_some'))) for s2, some, _ in self.opt_cases(st, args[0])]
+        if last in ('unwrap', 'expect', 'unwrap_unchecked'):
+            rs = [(s2, x) for s2, some, x in self.opt_cases(st, args[0]) if some]
+            if not rs:
+                raise PathAbort('unwrap of None')
+            return rs
+        if last in ('unwrap_or', 'unwrap_or_default'):
+            if last == 'unwrap_or_default':
+                return None
+            return [(s2, x if some else args[1]) for s2, some, x in self.opt_cases(st, args[0])]
+        if last in ('or',):
+            return [(s2, self.SOME(x) if some else args[1]) for s2, some, x in self.opt_cases(st, args[0])]
+        if last in ('filter', 'map', 'and_then', 'unwrap_or_else', 'map_or', 'map_or_else', 'or_else', 'is_some_and', 'ok_or_else'):
+            for s2, some, x in self.opt_cases(st, args[0]):
+                if last == 'filter':
+                    if not some:
+                        out.append((s2, self.NONE))
+                        continue
+                    # the predicate receives a reference to the payload: hand it the value (deref of a non-ref is the value)
+                    rs = self.call_closure(s2, args[1], [x], depth)
+                    if rs is None:
+                        return None
+                    for s3, r in rs:
+                        for s4, bv in self.bool_cases(s3, r):
+                            out.append((s4, self.SOME(x) if bv else self.NONE))
+                elif last in ('map', 'and_then', 'is_some_and'):
+                    if not some:
+                        out.append((s2, ('bool', False) if last == 'is_some_and' else self.NONE))
+                        continue
+                    rs = self.call_closure(s2, args[1], [x], depth)
+                    if rs is None:
+                        return None
+                    out.extend((s3, self.SOME(r) if last == 'map' else r) for s3, r in rs)
+                elif last in ('unwrap_or_else', 'or_else'):
+                    if some:
+                        out.append((s2, x if last == 'unwrap_or_else' else self.SOME(x)))
+                        continue
+                    rs = self.call_closure(s2, args[1], [], depth)
+                    if rs is None:
+                        return None
+                    out.extend(rs)
+                elif last == 'map_or':
+                    if not some:
+                        out.append((s2, args[1]))
+                        continue
+                    rs = self.call_closure(s2, args[2], [x], depth)
+                    if rs is None:
+                        return None
+                    out.extend(rs)
+                elif last == 'map_or_else':
+                    rs = self.call_closure(s2, args[2], [x], depth) if some else self.call_closure(s2, args[1], [], depth)
+                    if rs is None:
+                        return None
+                    out.extend(rs)
+                else:
+                    return None
+            return out
+        return None
 
     # ---------------------------------------------------------------- models of external callees
     def model(self, st, name, declared, args, t):
